@@ -19,6 +19,8 @@ POOL = ["NULL", "TRUE", "FALSE", "0", "1", "(-1)", "7", "0.0", "2.5", "(-1.5)", 
         # values whose rendering is long (error messages and stack traces abbreviate them)
         "'" + "long string " * 6 + "'", "['the first long element', 'the second long element', 'the third long element']",
         "<<< " + ", ".join("'key%d' => %d" % (i, i) for i in range(20)) + " >>>",
+        # collections with repeated elements (fewer distinct elements than elements), and a count between the two
+        "[1, 1]", "[1, 1, 1, 1, 1, 1, 1]", "'aaaaaaa'", "2",
         # objects that say how they are rendered - also when that fails
         "<*_str_ = fn(self) 'OBJ'*>", "<*_str_ = fn(self) error 'S'*>"]
 PRELUDE = ""
